@@ -110,7 +110,7 @@ Ltac cg_open :=
      it_right it_left d_buf_size d_rs d_re d_is d_ie c_len c_off
      drain_over_range drain_read drain_as_slices drain_as_mut_slices drain_next drain_next_back
      range_len drain_len csp_new csp_as_ptr csp_available_len csp_add drain_drop
-     index index_mut extend_from_slice
+     index index_mut extend_from_slice new_buf default_buf ref_into_iter
      io_write io_flush io_read io_fill_buf io_consume eio_write eio_flush eio_read eio_fill_buf eio_consume
      aio_write aio_flush aio_read aio_fill_buf aio_consume].
 
@@ -209,6 +209,89 @@ Ltac cg_kc_split c :=
     destruct (kc_split _ m K s w) as (? & ? & ? & ? & ? & E); rewrite E; clear K
   end.
 
+(* ---- computations that leave the state (and the world) as they are: what they are run on is
+   what comes out, so that a later read of the state sees what an earlier one saw -------------- *)
+Definition reads_only {A} (m : M A) : Prop := forall s w, exists o, m s w = (o, s, w).
+Definition keeps_state {A} (m : M A) : Prop := forall s w, exists o w', m s w = (o, s, w').
+
+Lemma ks_ret A (a : A) : keeps_state (ret a).
+Proof. intros s w; do 2 eexists; reflexivity. Qed.
+Lemma ks_bind A B (m : M A) (k : A -> M B) :
+  keeps_state m -> (forall a, keeps_state (k a)) -> keeps_state (bind m k).
+Proof.
+  intros Hm Hk s w. unfold bind. destruct (Hm s w) as (o & w' & E). rewrite E.
+  destruct o as [a|p]; [apply Hk | do 2 eexists; reflexivity].
+Qed.
+Lemma ks_emit ev : keeps_state (emit ev).
+Proof. intros s w; do 2 eexists; reflexivity. Qed.
+Lemma ks_user_call k : keeps_state (user_call k).
+Proof.
+  intros s w. unfold user_call. destruct (fault w) as [[k' n]|]; [|do 2 eexists; reflexivity].
+  destruct (fkind_eqb k k'); [destruct (n =? 0)|]; do 2 eexists; reflexivity.
+Qed.
+Lemma ks_list_eq_loop eqf : forall xs ys, keeps_state (list_eq_loop eqf xs ys).
+Proof.
+  induction xs as [|x xs IH]; intros [|y ys]; try apply ks_ret.
+  cbn [list_eq_loop].
+  apply ks_bind; [apply ks_emit|intros _].
+  apply ks_bind; [apply ks_user_call|intros _].
+  destruct (eqf x y); [apply IH|apply ks_ret].
+Qed.
+Lemma ks_slice_eq eqf xs ys : keeps_state (slice_eq eqf xs ys).
+Proof.
+  unfold slice_eq. destruct (zlen xs =? zlen ys); [apply ks_list_eq_loop|apply ks_ret].
+Qed.
+
+(* pointwise equal parts give pointwise equal wholes (no functional extensionality) *)
+Lemma bind_ext A B (m m' : M A) (k k' : A -> M B) :
+  (forall s w, m s w = m' s w) -> (forall a s w, k a s w = k' a s w) ->
+  forall s w, bind m k s w = bind m' k' s w.
+Proof.
+  intros Hm Hk s w. unfold bind. rewrite Hm. destruct (m' s w) as [[[a|p] s'] w']; [apply Hk|reflexivity].
+Qed.
+Lemma on_unwind_ext A (m m' : M A) (c c' : M unit) :
+  (forall s w, m s w = m' s w) -> (forall s w, c s w = c' s w) ->
+  forall s w, on_unwind m c s w = on_unwind m' c' s w.
+Proof.
+  intros Hm Hc s w. unfold on_unwind. rewrite Hm. destruct (m' s w) as [[[a|p] s'] w']; [reflexivity|].
+  rewrite Hc. reflexivity.
+Qed.
+Lemma with_buf_ext A (b : cbuf) (m m' : M A) :
+  (forall s w, m s w = m' s w) -> forall s w, with_buf b m s w = with_buf b m' s w.
+Proof. intros Hm s w. unfold with_buf. rewrite Hm. reflexivity. Qed.
+Lemma cloned_for_each_ext (src : cbuf) (body body' : elem -> M unit) :
+  (forall a s w, body a s w = body' a s w) ->
+  forall fuel it s w, cloned_for_each fuel src it body s w = cloned_for_each fuel src it body' s w.
+Proof.
+  intros Hb fuel. induction fuel as [|fuel IH]; intros it s w; cbn [cloned_for_each]; [reflexivity|].
+  destruct (iter_next it) as [it' [p|]]; [|reflexivity].
+  apply bind_ext; [reflexivity|intros c s1 w1].
+  apply bind_ext; [apply Hb|intros _ s2 w2; apply IH].
+Qed.
+Check bind_ext. Print Assumptions bind_ext.
+Check on_unwind_ext. Print Assumptions on_unwind_ext.
+Check with_buf_ext. Print Assumptions with_buf_ext.
+Check cloned_for_each_ext. Print Assumptions cloned_for_each_ext.
+
+Create HintDb cg_ks discriminated.
+Create HintDb cg_ro discriminated.
+#[export] Hint Resolve ks_slice_eq : cg_ks.
+
+Ltac cg_ks_split c :=
+  lazymatch c with
+  | ?m ?s ?w =>
+    first
+      [ let K := fresh "K" in
+        assert (K : reads_only m) by (auto with cg_ro nocore);
+        let E := fresh "E" in
+        destruct (K s w) as (? & E); rewrite E; clear K
+      | let K := fresh "K" in
+        assert (K : keeps_state m) by (auto with cg_ks nocore);
+        let E := fresh "E" in
+        destruct (K s w) as (? & ? & E); rewrite E; clear K ]
+  end.
+
+Check ks_slice_eq. Print Assumptions ks_slice_eq.
 Check kc_split. Print Assumptions kc_split.
 Check kc_write_uninit_slice_cloned. Print Assumptions kc_write_uninit_slice_cloned.
 
@@ -230,6 +313,9 @@ Ltac cg_ih_rewrite :=
   | IH : forall _, _ |- _ => rewrite IH
   end.
 
+(* what is opened again in a term that a rewrite has just put there (redefined where needed) *)
+Ltac cg_reopen := idtac.
+
 Ltac cg_step_side t :=
   cg_is_stuck t;
   let c := cg_inner t in
@@ -237,8 +323,9 @@ Ltac cg_step_side t :=
   | (outcome _ * cbuf * world)%type =>
     first [ cg_frame_rewrite c; cg_rdx
           | cg_ih_rewrite; cg_rdx
-          | progress (autorewrite with cg_eq); cg_rdx
+          | progress (autorewrite with cg_eq); cg_reopen; cg_rdx
           | lazymatch goal with H : c = _ |- _ => rewrite H end; cg_rdx
+          | cg_ks_split c; cg_rdx
           | cg_kc_split c; cg_rdx
           | cg_split c ]
   | _ => cg_split c
@@ -370,6 +457,21 @@ Lemma kc_slices_uninit_mut : keeps_cap slices_uninit_mut.
 Proof. kc_run cg_open. Qed.
 #[export] Hint Resolve kc_truncate_front kc_clear kc_slices_uninit_mut : cg_kc.
 
+(* the functions of the model that only read, and stay folded in the proofs about the trait impls *)
+Ltac ro_run cg_open_tac :=
+  intros [cap0 size0 start0 items0] [dbg0 nid0 log0 fault0];
+  repeat match goal with x : drain |- _ => destruct x end;
+  cg_open_tac;
+  repeat (lazymatch goal with |- exists o, ?L = _ => cg_step_side L end);
+  eexists; reflexivity.
+Lemma ro_as_slices : reads_only as_slices.
+Proof. ro_run cg_open. Qed.
+Lemma ro_drain_as_slices d : reads_only (drain_as_slices d).
+Proof. ro_run cg_open. Qed.
+#[export] Hint Resolve ro_as_slices ro_drain_as_slices : cg_ro.
+Check ro_as_slices. Print Assumptions ro_as_slices.
+Check ro_drain_as_slices. Print Assumptions ro_drain_as_slices.
+
 (*@ prelude *)
 (* in the whole-file build the common part is above; in the split build it is
    the compiled CGCommon.v *)
@@ -450,6 +552,36 @@ Ltac core_eq_mod g h :=
             | timeout 100 (unfold g; cg_open_one h; cg_run_soft) ]
     | core_eq ].
 
+(* the trait impls (comparison, hashing, formatting): gen_f and the model's f are opened, together
+   with the small functions in between (len, iter, Iter::new, ...); as_slices / drain_as_slices stay
+   folded (a call gen_as_slices s w is rewritten to as_slices s w by its own lemma; they only read:
+   reads_only), and so do the loops of Traits.v (slice_eq, which keeps the state; iter_for_each and
+   iter_cmp_loop, which both sides apply to the same arguments at the end). gs: gen_f and the
+   generated functions between it and the folded ones; hs: the model's. *)
+Ltac cg_open_traits :=
+  cbv beta iota zeta delta
+    [bind ret panic get put get_cap get_size get_start set_size set_start set_items get_items
+     dassert assert_ urem overflowing_add checked_add checked_sub b2z andb orb negb
+     items_slice sl_range sl_split_at sl_index idx read_slot write_slot raw_copy empty_slice
+     b_size b_start b_items cap size start items dbg next_id log fault soff slen fst snd
+     finally on_unwind with_buf it_right it_left d_buf_size d_rs d_re d_is d_ie c_len c_off
+     gen_bounds_check and_then sl_to sl_from emit w_log
+     len iter_new iter_clone ref_into_iter
+     buf_eq buf_eq_slice buf_eq_array buf_eq_slice_ref buf_eq_slice_mut buf_eq_array_ref buf_eq_array_mut
+     buf_partial_cmp buf_cmp buf_hash buf_fmt iter_fmt iter_mut_fmt drain_fmt into_iter_fmt].
+Ltac cg_reopen ::= cbv beta iota zeta delta [len iter_new iter_clone ref_into_iter get_size bind ret].
+Ltac traits_eq gs :=
+  intros;
+  repeat match goal with x : cbuf |- _ => destruct x as [? ? ? ?] end;
+  lazymatch goal with w : world |- _ => destruct w as [dbg0 nid0 log0 fault0] end;
+  cg_records;
+  timeout 300 (gs; cg_open_traits; cg_run).
+
+Ltac body_eq :=
+  intros;
+  first [ reflexivity
+        | unfold push_back_discard; cbv beta delta [bind]; autorewrite with cg_eq; reflexivity
+        | unfold push_back_discard; core_eq ].
 (*@ fn add_mod *)
 Lemma gen_add_mod_eq : forall x y m s w, gen_add_mod x y m s w = add_mod x y m s w.
 Proof.
@@ -1281,4 +1413,346 @@ Proof. core_eq_mod gen_aio_consume aio_consume. Qed.
 #[export] Hint Rewrite gen_aio_consume_eq : cg_eq.
 Check gen_aio_consume_eq.
 Print Assumptions gen_aio_consume_eq.
+
+(*@ fn Iter_size_hint *)
+Lemma gen_Iter_size_hint_eq : forall x1 s w, gen_Iter_size_hint x1 s w = (n <- iter_len x1;; ret (n, Some n)) s w.
+Proof. core_eq_mod gen_Iter_size_hint iter_len. Qed.
+#[export] Hint Rewrite gen_Iter_size_hint_eq : cg_eq.
+Check gen_Iter_size_hint_eq.
+Print Assumptions gen_Iter_size_hint_eq.
+
+(*@ fn IterMut_size_hint *)
+Lemma gen_IterMut_size_hint_eq : forall x1 s w, gen_IterMut_size_hint x1 s w = (n <- iter_mut_len x1;; ret (n, Some n)) s w.
+Proof. core_eq_mod gen_IterMut_size_hint iter_mut_len. Qed.
+#[export] Hint Rewrite gen_IterMut_size_hint_eq : cg_eq.
+Check gen_IterMut_size_hint_eq.
+Print Assumptions gen_IterMut_size_hint_eq.
+
+(*@ fn IntoIter_size_hint *)
+Lemma gen_IntoIter_size_hint_eq : forall s w, gen_IntoIter_size_hint s w = (n <- into_iter_len;; ret (n, Some n)) s w.
+Proof. core_eq_mod gen_IntoIter_size_hint into_iter_len. Qed.
+#[export] Hint Rewrite gen_IntoIter_size_hint_eq : cg_eq.
+Check gen_IntoIter_size_hint_eq.
+Print Assumptions gen_IntoIter_size_hint_eq.
+
+(*@ fn Drain_size_hint *)
+Lemma gen_Drain_size_hint_eq : forall x1 s w, gen_Drain_size_hint x1 s w = ret (drain_len x1, Some (drain_len x1)) s w.
+Proof. core_eq_mod gen_Drain_size_hint drain_len. Qed.
+#[export] Hint Rewrite gen_Drain_size_hint_eq : cg_eq.
+Check gen_Drain_size_hint_eq.
+Print Assumptions gen_Drain_size_hint_eq.
+
+(*@ fn CircularSlicePtr_clone *)
+Lemma gen_CircularSlicePtr_clone_eq : forall x1 s w, gen_CircularSlicePtr_clone x1 s w = ret x1 s w.
+Proof. core_eq. Qed.
+#[export] Hint Rewrite gen_CircularSlicePtr_clone_eq : cg_eq.
+Check gen_CircularSlicePtr_clone_eq.
+Print Assumptions gen_CircularSlicePtr_clone_eq.
+
+(*@ fn slice_assume_init_ref *)
+Lemma gen_slice_assume_init_ref_eq : forall x1 s w, gen_slice_assume_init_ref x1 s w = ret x1 s w.
+Proof. core_eq. Qed.
+#[export] Hint Rewrite gen_slice_assume_init_ref_eq : cg_eq.
+Check gen_slice_assume_init_ref_eq.
+Print Assumptions gen_slice_assume_init_ref_eq.
+
+(*@ fn slice_assume_init_mut *)
+Lemma gen_slice_assume_init_mut_eq : forall x1 s w, gen_slice_assume_init_mut x1 s w = ret x1 s w.
+Proof. core_eq. Qed.
+#[export] Hint Rewrite gen_slice_assume_init_mut_eq : cg_eq.
+Check gen_slice_assume_init_mut_eq.
+Print Assumptions gen_slice_assume_init_mut_eq.
+
+(*@ fn new *)
+(* a constructor runs on the memory that receives its result: a state of the capacity of the type
+   whose size, start and items are whatever that memory holds *)
+Lemma gen_new_eq : forall s w, gen_new s w = (Ok tt, new_buf (cap s) (items s), w).
+Proof. core_eq. Qed.
+#[export] Hint Rewrite gen_new_eq : cg_eq.
+Check gen_new_eq.
+Print Assumptions gen_new_eq.
+
+(*@ fn default *)
+Lemma gen_default_eq : forall s w, gen_default s w = (Ok tt, default_buf (cap s) (items s), w).
+Proof. core_eq_mod gen_default default_buf. Qed.
+#[export] Hint Rewrite gen_default_eq : cg_eq.
+Check gen_default_eq.
+Print Assumptions gen_default_eq.
+
+(*@ fn ref_into_iter *)
+Lemma gen_ref_into_iter_eq : forall s w, gen_ref_into_iter s w = ref_into_iter s w.
+Proof. core_eq_mod gen_ref_into_iter ref_into_iter. Qed.
+#[export] Hint Rewrite gen_ref_into_iter_eq : cg_eq.
+Check gen_ref_into_iter_eq.
+Print Assumptions gen_ref_into_iter_eq.
+
+(*@ fn u_slice_take *)
+(* the `cfg(feature = "unstable")` variant: equal to its image in theories/Unstable.v *)
+From CB Require Import Unstable.
+Lemma gen_u_slice_take_eq : forall x1 x2 s w, gen_u_slice_take x1 x2 s w = u_slice_take x1 x2 s w.
+Proof.
+  intros; coregen_unfold;
+  cbv beta iota zeta delta
+    [u_slice_take u_slice_take_mut u_slice_take_first u_slice_take_first_mut u_slice_take_last u_slice_take_last_mut
+     sl_split_off sl_split_off_mut split_point_of osr_bound_of sl_split_first sl_split_last
+     sl_split_off_first sl_split_off_last sl_split_off_first_mut sl_split_off_last_mut];
+  core_eq.
+Qed.
+#[export] Hint Rewrite gen_u_slice_take_eq : cg_eq.
+Check gen_u_slice_take_eq.
+Print Assumptions gen_u_slice_take_eq.
+
+(*@ fn u_slice_take_mut *)
+(* the `cfg(feature = "unstable")` variant: equal to its image in theories/Unstable.v *)
+From CB Require Import Unstable.
+Lemma gen_u_slice_take_mut_eq : forall x1 x2 s w, gen_u_slice_take_mut x1 x2 s w = u_slice_take_mut x1 x2 s w.
+Proof.
+  intros; coregen_unfold;
+  cbv beta iota zeta delta
+    [u_slice_take u_slice_take_mut u_slice_take_first u_slice_take_first_mut u_slice_take_last u_slice_take_last_mut
+     sl_split_off sl_split_off_mut split_point_of osr_bound_of sl_split_first sl_split_last
+     sl_split_off_first sl_split_off_last sl_split_off_first_mut sl_split_off_last_mut];
+  core_eq.
+Qed.
+#[export] Hint Rewrite gen_u_slice_take_mut_eq : cg_eq.
+Check gen_u_slice_take_mut_eq.
+Print Assumptions gen_u_slice_take_mut_eq.
+
+(*@ fn u_slice_take_first *)
+(* the `cfg(feature = "unstable")` variant: equal to its image in theories/Unstable.v *)
+From CB Require Import Unstable.
+Lemma gen_u_slice_take_first_eq : forall x1 s w, gen_u_slice_take_first x1 s w = ret (u_slice_take_first x1) s w.
+Proof.
+  intros; coregen_unfold;
+  cbv beta iota zeta delta
+    [u_slice_take u_slice_take_mut u_slice_take_first u_slice_take_first_mut u_slice_take_last u_slice_take_last_mut
+     sl_split_off sl_split_off_mut split_point_of osr_bound_of sl_split_first sl_split_last
+     sl_split_off_first sl_split_off_last sl_split_off_first_mut sl_split_off_last_mut];
+  core_eq.
+Qed.
+#[export] Hint Rewrite gen_u_slice_take_first_eq : cg_eq.
+Check gen_u_slice_take_first_eq.
+Print Assumptions gen_u_slice_take_first_eq.
+
+(*@ fn u_slice_take_first_mut *)
+(* the `cfg(feature = "unstable")` variant: equal to its image in theories/Unstable.v *)
+From CB Require Import Unstable.
+Lemma gen_u_slice_take_first_mut_eq : forall x1 s w, gen_u_slice_take_first_mut x1 s w = ret (u_slice_take_first_mut x1) s w.
+Proof.
+  intros; coregen_unfold;
+  cbv beta iota zeta delta
+    [u_slice_take u_slice_take_mut u_slice_take_first u_slice_take_first_mut u_slice_take_last u_slice_take_last_mut
+     sl_split_off sl_split_off_mut split_point_of osr_bound_of sl_split_first sl_split_last
+     sl_split_off_first sl_split_off_last sl_split_off_first_mut sl_split_off_last_mut];
+  core_eq.
+Qed.
+#[export] Hint Rewrite gen_u_slice_take_first_mut_eq : cg_eq.
+Check gen_u_slice_take_first_mut_eq.
+Print Assumptions gen_u_slice_take_first_mut_eq.
+
+(*@ fn u_slice_take_last *)
+(* the `cfg(feature = "unstable")` variant: equal to its image in theories/Unstable.v *)
+From CB Require Import Unstable.
+Lemma gen_u_slice_take_last_eq : forall x1 s w, gen_u_slice_take_last x1 s w = ret (u_slice_take_last x1) s w.
+Proof.
+  intros; coregen_unfold;
+  cbv beta iota zeta delta
+    [u_slice_take u_slice_take_mut u_slice_take_first u_slice_take_first_mut u_slice_take_last u_slice_take_last_mut
+     sl_split_off sl_split_off_mut split_point_of osr_bound_of sl_split_first sl_split_last
+     sl_split_off_first sl_split_off_last sl_split_off_first_mut sl_split_off_last_mut];
+  core_eq.
+Qed.
+#[export] Hint Rewrite gen_u_slice_take_last_eq : cg_eq.
+Check gen_u_slice_take_last_eq.
+Print Assumptions gen_u_slice_take_last_eq.
+
+(*@ fn u_slice_take_last_mut *)
+(* the `cfg(feature = "unstable")` variant: equal to its image in theories/Unstable.v *)
+From CB Require Import Unstable.
+Lemma gen_u_slice_take_last_mut_eq : forall x1 s w, gen_u_slice_take_last_mut x1 s w = ret (u_slice_take_last_mut x1) s w.
+Proof.
+  intros; coregen_unfold;
+  cbv beta iota zeta delta
+    [u_slice_take u_slice_take_mut u_slice_take_first u_slice_take_first_mut u_slice_take_last u_slice_take_last_mut
+     sl_split_off sl_split_off_mut split_point_of osr_bound_of sl_split_first sl_split_last
+     sl_split_off_first sl_split_off_last sl_split_off_first_mut sl_split_off_last_mut];
+  core_eq.
+Qed.
+#[export] Hint Rewrite gen_u_slice_take_last_mut_eq : cg_eq.
+Check gen_u_slice_take_last_mut_eq.
+Print Assumptions gen_u_slice_take_last_mut_eq.
+
+(*@ fn buf_fmt *)
+Lemma gen_buf_fmt_eq : forall  s w, gen_buf_fmt s w = buf_fmt s w.
+Proof. traits_eq ltac:(cbv beta iota zeta delta [gen_buf_fmt gen_len gen_iter gen_Iter_new gen_ref_into_iter gen_Iter_clone]). Qed.
+#[export] Hint Rewrite gen_buf_fmt_eq : cg_eq.
+Check gen_buf_fmt_eq.
+Print Assumptions gen_buf_fmt_eq.
+
+(*@ fn buf_hash *)
+Lemma gen_buf_hash_eq : forall  s w, gen_buf_hash s w = buf_hash s w.
+Proof. traits_eq ltac:(cbv beta iota zeta delta [gen_buf_hash gen_len gen_iter gen_Iter_new gen_ref_into_iter gen_Iter_clone]). Qed.
+#[export] Hint Rewrite gen_buf_hash_eq : cg_eq.
+Check gen_buf_hash_eq.
+Print Assumptions gen_buf_hash_eq.
+
+(*@ fn buf_partial_cmp *)
+Lemma gen_buf_partial_cmp_eq : forall x0 x1 s w, gen_buf_partial_cmp x0 x1 s w = buf_partial_cmp x0 x1 s w.
+Proof. traits_eq ltac:(cbv beta iota zeta delta [gen_buf_partial_cmp gen_len gen_iter gen_Iter_new gen_ref_into_iter gen_Iter_clone]). Qed.
+#[export] Hint Rewrite gen_buf_partial_cmp_eq : cg_eq.
+Check gen_buf_partial_cmp_eq.
+Print Assumptions gen_buf_partial_cmp_eq.
+
+(*@ fn buf_cmp *)
+Lemma gen_buf_cmp_eq : forall x0 x1 s w, gen_buf_cmp x0 x1 s w = buf_cmp x0 x1 s w.
+Proof. traits_eq ltac:(cbv beta iota zeta delta [gen_buf_cmp gen_len gen_iter gen_Iter_new gen_ref_into_iter gen_Iter_clone]). Qed.
+#[export] Hint Rewrite gen_buf_cmp_eq : cg_eq.
+Check gen_buf_cmp_eq.
+Print Assumptions gen_buf_cmp_eq.
+
+(*@ fn buf_eq *)
+Lemma gen_buf_eq_eq : forall x0 x1 s w, gen_buf_eq x0 x1 s w = buf_eq x0 x1 s w.
+Proof. traits_eq ltac:(cbv beta iota zeta delta [gen_buf_eq gen_len gen_iter gen_Iter_new gen_ref_into_iter gen_Iter_clone]). Qed.
+#[export] Hint Rewrite gen_buf_eq_eq : cg_eq.
+Check gen_buf_eq_eq.
+Print Assumptions gen_buf_eq_eq.
+
+(*@ fn buf_eq_slice *)
+Lemma gen_buf_eq_slice_eq : forall x0 x1 s w, gen_buf_eq_slice x0 x1 s w = buf_eq_slice x0 x1 s w.
+Proof. traits_eq ltac:(cbv beta iota zeta delta [gen_buf_eq_slice gen_len gen_iter gen_Iter_new gen_ref_into_iter gen_Iter_clone]). Qed.
+#[export] Hint Rewrite gen_buf_eq_slice_eq : cg_eq.
+Check gen_buf_eq_slice_eq.
+Print Assumptions gen_buf_eq_slice_eq.
+
+(*@ fn buf_eq_array *)
+Lemma gen_buf_eq_array_eq : forall x0 x1 s w, gen_buf_eq_array x0 x1 s w = buf_eq_array x0 x1 s w.
+Proof. core_eq_mod gen_buf_eq_array buf_eq_array. Qed.
+#[export] Hint Rewrite gen_buf_eq_array_eq : cg_eq.
+Check gen_buf_eq_array_eq.
+Print Assumptions gen_buf_eq_array_eq.
+
+(*@ fn buf_eq_slice_ref *)
+Lemma gen_buf_eq_slice_ref_eq : forall x0 x1 s w, gen_buf_eq_slice_ref x0 x1 s w = buf_eq_slice_ref x0 x1 s w.
+Proof. core_eq_mod gen_buf_eq_slice_ref buf_eq_slice_ref. Qed.
+#[export] Hint Rewrite gen_buf_eq_slice_ref_eq : cg_eq.
+Check gen_buf_eq_slice_ref_eq.
+Print Assumptions gen_buf_eq_slice_ref_eq.
+
+(*@ fn buf_eq_slice_mut *)
+Lemma gen_buf_eq_slice_mut_eq : forall x0 x1 s w, gen_buf_eq_slice_mut x0 x1 s w = buf_eq_slice_mut x0 x1 s w.
+Proof. core_eq_mod gen_buf_eq_slice_mut buf_eq_slice_mut. Qed.
+#[export] Hint Rewrite gen_buf_eq_slice_mut_eq : cg_eq.
+Check gen_buf_eq_slice_mut_eq.
+Print Assumptions gen_buf_eq_slice_mut_eq.
+
+(*@ fn buf_eq_array_ref *)
+Lemma gen_buf_eq_array_ref_eq : forall x0 x1 s w, gen_buf_eq_array_ref x0 x1 s w = buf_eq_array_ref x0 x1 s w.
+Proof. core_eq_mod gen_buf_eq_array_ref buf_eq_array_ref. Qed.
+#[export] Hint Rewrite gen_buf_eq_array_ref_eq : cg_eq.
+Check gen_buf_eq_array_ref_eq.
+Print Assumptions gen_buf_eq_array_ref_eq.
+
+(*@ fn buf_eq_array_mut *)
+Lemma gen_buf_eq_array_mut_eq : forall x0 x1 s w, gen_buf_eq_array_mut x0 x1 s w = buf_eq_array_mut x0 x1 s w.
+Proof. core_eq_mod gen_buf_eq_array_mut buf_eq_array_mut. Qed.
+#[export] Hint Rewrite gen_buf_eq_array_mut_eq : cg_eq.
+Check gen_buf_eq_array_mut_eq.
+Print Assumptions gen_buf_eq_array_mut_eq.
+
+(*@ fn Iter_fmt *)
+Lemma gen_Iter_fmt_eq : forall x1 s w, gen_Iter_fmt x1 s w = iter_fmt x1 s w.
+Proof. traits_eq ltac:(cbv beta iota zeta delta [gen_Iter_fmt gen_len gen_iter gen_Iter_new gen_ref_into_iter gen_Iter_clone]). Qed.
+#[export] Hint Rewrite gen_Iter_fmt_eq : cg_eq.
+Check gen_Iter_fmt_eq.
+Print Assumptions gen_Iter_fmt_eq.
+
+(*@ fn IterMut_fmt *)
+Lemma gen_IterMut_fmt_eq : forall x1 s w, gen_IterMut_fmt x1 s w = iter_mut_fmt x1 s w.
+Proof. traits_eq ltac:(cbv beta iota zeta delta [gen_IterMut_fmt]). Qed.
+#[export] Hint Rewrite gen_IterMut_fmt_eq : cg_eq.
+Check gen_IterMut_fmt_eq.
+Print Assumptions gen_IterMut_fmt_eq.
+
+(*@ fn IntoIter_fmt *)
+Lemma gen_IntoIter_fmt_eq : forall  s w, gen_IntoIter_fmt s w = into_iter_fmt s w.
+Proof. core_eq_mod gen_IntoIter_fmt into_iter_fmt. Qed.
+#[export] Hint Rewrite gen_IntoIter_fmt_eq : cg_eq.
+Check gen_IntoIter_fmt_eq.
+Print Assumptions gen_IntoIter_fmt_eq.
+
+(*@ fn Drain_fmt *)
+Lemma gen_Drain_fmt_eq : forall x1 s w, gen_Drain_fmt x1 s w = drain_fmt x1 s w.
+Proof. traits_eq ltac:(cbv beta iota zeta delta [gen_Drain_fmt]). Qed.
+#[export] Hint Rewrite gen_Drain_fmt_eq : cg_eq.
+Check gen_Drain_fmt_eq.
+Print Assumptions gen_Drain_fmt_eq.
+
+(*@ fn extend *)
+(* an `I: IntoIterator<Item = T>` is rendered as the function that runs a closure on every item (see
+   CoreGen.v); the model's extend is about a user iterator that owns the items: gen_user_for_each *)
+Lemma gen_user_for_each_push : forall body,
+  (forall a s w, body a s w = push_back_discard a s w) ->
+  forall xs s w, gen_user_for_each xs body s w = extend_loop xs s w.
+Proof.
+  intros body Hb. induction xs as [|x rest IH]; intros s w; cbn [gen_user_for_each extend_loop];
+  (apply bind_ext; [reflexivity|intros _ s1 w1]); [reflexivity|].
+  apply bind_ext; [|intros _ s2 w2; apply IH].
+  apply on_unwind_ext; [apply Hb|reflexivity].
+Qed.
+Check gen_user_for_each_push. Print Assumptions gen_user_for_each_push.
+Lemma gen_extend_eq : forall x1 s w, gen_extend (gen_user_for_each x1) s w = extend x1 s w.
+Proof. intros. unfold gen_extend, extend. apply gen_user_for_each_push. body_eq. Qed.
+Check gen_extend_eq.
+Print Assumptions gen_extend_eq.
+
+(*@ fn extend_ref *)
+Lemma gen_extend_ref_eq : forall x1 s w, gen_extend_ref (gen_refs_for_each x1) s w = extend_ref x1 s w.
+Proof.
+  unfold gen_extend_ref. induction x1 as [|x rest IH]; intros s w; cbn [gen_refs_for_each extend_ref]; [reflexivity|].
+  cbv beta delta [bind ret]. autorewrite with cg_eq.
+  destruct (push_back x s w) as [[[a|p] s2] w2]; [apply IH|reflexivity].
+Qed.
+Check gen_extend_ref_eq.
+Print Assumptions gen_extend_ref_eq.
+
+(*@ fn clone_from *)
+Lemma gen_clone_from_eq : forall x1 s w, gen_clone_from x1 s w = clone_from x1 s w.
+Proof.
+  intros. unfold gen_clone_from, clone_from.
+  apply bind_ext; [apply gen_clear_eq|intros _ s1 w1].
+  apply bind_ext; [apply with_buf_ext; apply gen_iter_eq|intros [it b] s2 w2].
+  cbv zeta. unfold gen_extend. apply cloned_for_each_ext. body_eq.
+Qed.
+Check gen_clone_from_eq.
+Print Assumptions gen_clone_from_eq.
+
+(*@ fn from_iter *)
+(* a constructor runs on the memory that receives its result, whatever it holds (sz, st, junk) *)
+Lemma gen_from_iter_eq : forall n sz st junk x1 s w,
+  ('(_, b) <- with_buf (mkB n sz st junk) (gen_from_iter (gen_user_for_each x1));; ret b) s w = from_iter n junk x1 s w.
+Proof.
+  intros. unfold from_iter. apply bind_ext; [|reflexivity].
+  intros s1 w1. unfold with_buf, gen_from_iter. cbv beta delta [bind]. rewrite gen_new_eq.
+  cbn [cap items].
+  rewrite (on_unwind_ext _ _ (extend_loop x1) _ drop_buf);
+    [reflexivity | apply gen_user_for_each_push; body_eq | apply gen_buf_drop_eq].
+Qed.
+Check gen_from_iter_eq.
+Print Assumptions gen_from_iter_eq.
+
+(*@ fn clone *)
+(* the memory that receives the clone is a parameter; for memory of the capacity of the type,
+   whatever it holds (sz, st, junk), the result is the model's *)
+Lemma gen_clone_eq : forall sz st junk s w, gen_clone (mkB (cap s) sz st junk) s w = clone_buf junk s w.
+Proof.
+  intros. unfold gen_clone, clone_buf.
+  cbv beta delta [bind get get_size]. rewrite gen_iter_eq. unfold iter_new. cbv beta delta [bind].
+  destruct (ro_as_slices s w) as (o & E). rewrite E.
+  destruct o as [[r l]|p]; [|reflexivity]. cbv beta iota zeta delta [ret].
+  unfold with_buf, gen_from_iter. cbv beta delta [bind]. rewrite gen_new_eq. cbn [cap items].
+  rewrite (on_unwind_ext _ _ (cloned_for_each (S (Z.to_nat (size s))) s (mkI r l) push_back_discard) _ drop_buf);
+    [reflexivity | apply cloned_for_each_ext; body_eq | apply gen_buf_drop_eq].
+Qed.
+Check gen_clone_eq.
+Print Assumptions gen_clone_eq.
 
